@@ -138,6 +138,7 @@ def _fmt_cfg(cfg):
 # more than two hours on three workers); until they have been, the thorough command of these properties explores
 # the quick plan -- a bound that is known to be decided -- and says so in its evidence (DESIGN.md 10.1).
 THOROUGH_USES_QUICK_PLAN = {
+    'C03': 'thorough emitter shapes with two symbolic characters ran into their 15-minute budgets when last run end-to-end',
     'C06': 'thorough kernel shapes with four symbolic characters need more than 40 minutes each',
     'C11': 'thorough statement-parser and front-end shapes (one more symbolic character, 40-minute budgets) were not run to the end on the final tree',
     'C14': 'thorough schedules (14 decisions, 5 lead-ins) were not run to the end on the final tree',
